@@ -17,7 +17,9 @@
 #include <algorithm>
 #include <new>
 #include "gshell.hpp"
+#include "multiarr.hpp"
 using libecpint::GaussianShell;
+using libecpint::TwoIndex; using libecpint::ThreeIndex; using libecpint::FiveIndex; using libecpint::SevenIndex;
 
 static const int NSLOT = 64, NEXT = 16;
 alignas(GaussianShell) static unsigned char pool[NSLOT][sizeof(GaussianShell)];
@@ -131,7 +133,49 @@ static int run_vec(const char* hist, const char* outp) {
   std::fclose(out); return 0;
 }
 
+// arr mode: copy construction and assignment of the multi-index arrays between every pair of shapes of a small family
+// (same shape, different element count, SAME element count with a different shape, empty), against a plain reference
+// (dims + flat vector).  Lines "ARRMISMATCH <class> <what>"; "ARRSUMMARY checks=<n>".
+template <class Arr, int ND> static long arr_pairs(const char* cls, const std::vector<std::array<int, ND>>& shapes, FILE* out,
+                                                  void (*make)(Arr&, const std::array<int, ND>&)) {
+  long checks = 0;
+  auto same = [&](const Arr& x, const std::array<int, ND>& d, const std::vector<double>& v) {
+    for (int i = 0; i < ND; i++) if (x.dims[i] != d[i]) return false;
+    return x.data == v;
+  };
+  for (auto& sa : shapes) for (auto& sb : shapes) {
+    Arr a, b; make(a, sa); make(b, sb);
+    for (size_t i = 0; i < a.data.size(); i++) a.data[i] = 1.0 + i;
+    for (size_t i = 0; i < b.data.size(); i++) b.data[i] = -100.0 - i;
+    std::vector<double> ref = a.data;
+    b = a; checks++;
+    std::string tag; for (int i = 0; i < ND; i++) tag += (i ? "x" : "") + std::to_string(sb[i]); tag += " = "; for (int i = 0; i < ND; i++) tag += (i ? "x" : "") + std::to_string(sa[i]);
+    if (!same(b, sa, ref)) std::fprintf(out, "ARRMISMATCH %s assignment %s : target has dims/data different from the source\n", cls, tag.c_str());
+    if (!same(a, sa, ref)) std::fprintf(out, "ARRMISMATCH %s assignment %s : source changed\n", cls, tag.c_str());
+    if (!b.data.empty()) { b.data[0] += 1.0; if (!same(a, sa, ref)) std::fprintf(out, "ARRMISMATCH %s assignment %s : target shares storage with the source\n", cls, tag.c_str()); }
+    Arr c(a); checks++;
+    if (!same(c, sa, ref)) std::fprintf(out, "ARRMISMATCH %s copy construction from %s : differs from the source\n", cls, tag.c_str());
+    Arr& ar = a; a = ar; checks++;
+    if (!same(a, sa, ref)) std::fprintf(out, "ARRMISMATCH %s self-assignment %s : changed\n", cls, tag.c_str());
+  }
+  return checks;
+}
+static int run_arr(const char*, const char* outp) {
+  FILE* out = std::fopen(outp, "w"); long n = 0;
+  n += arr_pairs<TwoIndex<double>, 2>("TwoIndex", {{0, 0}, {1, 1}, {2, 6}, {3, 4}, {6, 2}, {4, 3}, {3, 3}, {1, 12}}, out,
+        [](TwoIndex<double>& x, const std::array<int, 2>& d) { x.assign(d[0], d[1], 0.0); });
+  n += arr_pairs<ThreeIndex<double>, 3>("ThreeIndex", {{0, 0, 0}, {2, 3, 4}, {4, 3, 2}, {2, 2, 6}, {1, 1, 1}, {3, 3, 3}}, out,
+        [](ThreeIndex<double>& x, const std::array<int, 3>& d) { x = ThreeIndex<double>(d[0], d[1], d[2]); });
+  n += arr_pairs<FiveIndex<double>, 5>("FiveIndex", {{0, 0, 0, 0, 0}, {2, 1, 3, 1, 2}, {1, 2, 1, 3, 2}, {2, 2, 2, 1, 1}, {1, 1, 1, 1, 1}}, out,
+        [](FiveIndex<double>& x, const std::array<int, 5>& d) { x = FiveIndex<double>(d[0], d[1], d[2], d[3], d[4]); });
+  n += arr_pairs<SevenIndex<double>, 7>("SevenIndex", {{0, 0, 0, 0, 0, 0, 0}, {2, 1, 1, 3, 1, 2, 1}, {1, 2, 3, 1, 1, 1, 2}, {1, 1, 1, 1, 1, 1, 1}}, out,
+        [](SevenIndex<double>& x, const std::array<int, 7>& d) { x = SevenIndex<double>(d[0], d[1], d[2], d[3], d[4], d[5], d[6]); });
+  std::fprintf(out, "ARRSUMMARY checks=%ld\n", n);
+  std::fclose(out); return 0;
+}
+
 int main(int argc, char** argv) {
-  if (argc < 4) { std::fprintf(stderr, "usage: drv_copy obj|vec in out\n"); return 2; }
+  if (argc < 4) { std::fprintf(stderr, "usage: drv_copy obj|vec|arr in out\n"); return 2; }
+  if (std::string(argv[1]) == "arr") return run_arr(argv[2], argv[3]);
   return std::string(argv[1]) == "obj" ? run_obj(argv[2], argv[3]) : run_vec(argv[2], argv[3]);
 }
